@@ -45,6 +45,7 @@ def main(tier):
     packed = shapes.pack(sh, "Pk")
     packed.append((shapes.pattern_package(4 if tier == "quick" else 5)[0], []))
     packed.append((shapes.buffer_package()[0], []))
+    packed.append((shapes.bigschema_package(), []))
     chk.extra["shapes"] = len(sh)
     chk.extra["depth"] = d
     chk.extra["k"] = 1 if tier == "quick" else 2
